@@ -358,13 +358,9 @@ func (d *c12Dag) transient(x *xplore.Ctx, viol func(sig, detail string)) string 
 	}
 	d.s.ResetLogs()
 	hook := func(c cid.Cid, nth int) error {
-		switch x.Choose(3, "load") {
-		case 1:
+		if k := x.Choose(1+len(store.AllKinds), "load"); k > 0 {
 			failedAt = append(failedAt, nth)
-			return store.MakeErr(store.NotFound, c)
-		case 2:
-			failedAt = append(failedAt, nth)
-			return store.MakeErr(store.IOError, c)
+			return store.MakeErr(store.AllKinds[k-1], c)
 		}
 		return nil
 	}
@@ -453,7 +449,7 @@ func (d *c12Dag) transient(x *xplore.Ctx, viol func(sig, detail string)) string 
 }
 
 func runC12(r *core.Run) {
-	r.Rule("fault enumeration, all exhaustive: (a) every single block of every DAG withheld, (b) every subset of blocks withheld for DAGs with <= 10 blocks (the full powerset replaces 'random subsets'), both error kinds; (c) stateless DFS over 'the k-th load fails' choice sequences (3 answers per load, <= 2 failures per execution, reads retried after errors). DAGs: file shapes (w in {2,3}, incl. equal chunks = one CID at several positions; both writers), sharded directories of universe subsets at F in {8,16,256} and reference-written ones. Oracles from an independent model: bytes before the error == content preceding the first needed withheld span, error is the injected load error (never EOF/not-found), iteration yields exactly the entries reachable without the withheld shards and one error per withheld shard met")
+	r.Rule("fault enumeration, all exhaustive: (a) every single block of every DAG withheld, (b) every subset of blocks withheld for DAGs with <= 10 blocks (the full powerset replaces 'random subsets'), three error kinds (not-found, opaque I/O, bare io.ErrUnexpectedEOF); (c) stateless DFS over 'the k-th load fails' choice sequences (4 answers per load: ok / not-found / opaque I/O error / bare io.ErrUnexpectedEOF, <= 2 failures per execution, reads retried after errors). DAGs: file shapes (w in {2,3}, incl. equal chunks = one CID at several positions; both writers), sharded directories of universe subsets at F in {8,16,256} and reference-written ones. Oracles from an independent model: bytes before the error == content preceding the first needed withheld span, error is the injected load error (never EOF/not-found), iteration yields exactly the entries reachable without the withheld shards and one error per withheld shard met")
 	var cases []c05Case
 	var files []fileCase
 	writers := []string{"ours", "balanced/raw=false/v1=false", "trickle/raw=true/v1=true"}
@@ -530,8 +526,8 @@ func runC12(r *core.Run) {
 						ml = append(ml, b.String())
 					}
 				}
-				for _, kind := range []store.ErrKind{store.NotFound, store.IOError} {
-					if m == 0 && kind == store.IOError {
+				for _, kind := range store.AllKinds {
+					if m == 0 && kind != store.NotFound {
 						continue
 					}
 					subsets.add(1)
